@@ -148,6 +148,7 @@ struct Built {
     op_errors: u64,
     writer_checks: u64,
     writer_violations: Vec<(usize, Target, String)>, // (op index, file, what)
+    ord_steps: Vec<String>,                          // Coq `ord_step` terms: every message append, ordinal index before / after
 }
 
 // ---------------------------------------------------------------- write conformance of the cache writers
@@ -292,6 +293,31 @@ fn writer_conforms(t: Target, id: &str, before: &Option<Vec<u8>>, after: &Option
     }
     Some(format!("{:?}: {} bytes before the operation, {} after; the new content is neither the old bytes plus well-formed records of truth frames, nor a rebuild (from the truth stream / from the sidecar it is derived from)", t, before_b.len(), after.len()))
 }
+/// Model/Cache.v `ofile` term for the bytes of the ordinal index
+fn coq_ofile(raw: &Option<Vec<u8>>, truth: &[(Event, Vec<u8>)]) -> String {
+    let Some(raw) = raw else { return "OAbsent".into() };
+    if raw.is_empty() {
+        return "OEmpty".into();
+    }
+    if raw.len() < 32 || &raw[0..8] != b"RIPMORD1" || u32::from_le_bytes(raw[8..12].try_into().unwrap()) != 1 {
+        return "OBadHeader".into();
+    }
+    let data = &raw[32..];
+    let torn = data.len() % 24;
+    let mut recs: Vec<u64> = vec![];
+    for c in data.chunks_exact(24) {
+        let seq = u64::from_le_bytes(c[0..8].try_into().unwrap());
+        if torn != 0 {
+            // behind a torn record the bytes are shifted: keep the leading records that are records of truth messages
+            let valid = truth.iter().any(|(e, _)| kind_in(Target::Ord, e) && e.seq == seq && uuid::Uuid::parse_str(&e.id).map(|u| u.as_bytes()[..] == c[8..24]).unwrap_or(false));
+            if !valid {
+                break;
+            }
+        }
+        recs.push(seq);
+    }
+    format!("(OFile {} {})", coq_list_n(&recs), torn)
+}
 const CONFORM_TARGETS: [Target; 5] = [Target::Full, Target::Mr, Target::Comp, Target::CompIdx, Target::Ord];
 
 fn file_versions(root: &Path, id: &str) -> BTreeMap<Target, Option<Vec<u8>>> {
@@ -380,6 +406,7 @@ fn build(case: &Case) -> Built {
     let versioned = !case.long;
     let mut writer_checks = 0u64;
     let mut writer_violations: Vec<(usize, Target, String)> = vec![];
+    let mut ord_steps: Vec<String> = vec![];
     let mut last_state: Option<(BTreeMap<Target, Option<Vec<u8>>>, BTreeMap<Target, bool>)> =
         if versioned { Some((file_versions(&root, &id), TARGETS.iter().map(|t| (*t, target_path(&root, &id, *t).exists())).collect())) } else { None };
     for (opi, op) in case.ops.iter().enumerate() {
@@ -455,6 +482,13 @@ fn build(case: &Case) -> Built {
                 if let Some((was, was_present)) = &last_state {
                     let truth = truth_lines(&root, &id);
                     let truth_valid = truth.iter().enumerate().all(|(i, (e, _))| e.seq == i as u64);
+                    if let (Op::Msg { .. }, true, true) = (op, r.is_ok(), truth_valid) {
+                        let big = |m: &BTreeMap<Target, Option<Vec<u8>>>, pr: &BTreeMap<Target, bool>| pr[&Target::Ord] && m[&Target::Ord].is_none();
+                        if let (Some((ev, _)), false, false) = (truth.iter().find(|(e, _)| Some(&e.id) == messages.last()), big(was, was_present), big(&now, &now_present)) {
+                            let msgs: Vec<u64> = truth.iter().filter(|(e, _)| kind_in(Target::Ord, e)).map(|(e, _)| e.seq).collect();
+                            ord_steps.push(format!("{{| os_before := {}; os_seq := {}; os_after := {}; os_msgs := {} |}}", coq_ofile(&was[&Target::Ord], &truth), ev.seq, coq_ofile(&now[&Target::Ord], &truth), coq_list_n(&msgs)));
+                        }
+                    }
                     for t in CONFORM_TARGETS {
                         // a file too big to snapshot (present but not read) is skipped
                         let readable = |m: &BTreeMap<Target, Option<Vec<u8>>>, pr: &BTreeMap<Target, bool>| !pr[&t] || m[&t].is_some();
@@ -474,7 +508,7 @@ fn build(case: &Case) -> Built {
         }
     }
     drop(o);
-    Built { scratch, id, messages, op_errors: errs, writer_checks, writer_violations }
+    Built { scratch, id, messages, op_errors: errs, writer_checks, writer_violations, ord_steps }
 }
 
 // ---------------------------------------------------------------- queries
@@ -1195,6 +1229,7 @@ struct Outcome {
     op_errors: u64,
     writer_checks: u64,
     writer_violations: Vec<(usize, Target, String)>,
+    ord_steps: Vec<String>,
 }
 fn run_case(case: &Case) -> Outcome {
     let b = build(case);
@@ -1230,7 +1265,7 @@ fn run_case(case: &Case) -> Outcome {
         hung = fast == Ans::Hang || truth == Ans::Hang;
         results.push((q.clone(), fast, truth));
     }
-    Outcome { results, abs, full, coh, messages: b.messages.clone(), op_errors: b.op_errors, writer_checks: b.writer_checks, writer_violations: b.writer_violations.clone() }
+    Outcome { results, abs, full, coh, messages: b.messages.clone(), op_errors: b.op_errors, writer_checks: b.writer_checks, writer_violations: b.writer_violations.clone(), ord_steps: b.ord_steps.clone() }
 }
 
 fn case_json(c: &Case) -> Value {
@@ -1374,6 +1409,8 @@ fn main() {
                 replay: json!({"case": case_json(&Case { ops: case.ops[..=*opi].to_vec(), queries: vec![], long: false }), "check": "write conformance after the last operation"}),
             });
         }
+        let mut ord_term = Some(format!("[{}]", out.ord_steps.join("; ")));
+        res.bump_by("ord_index_write_steps_in_model", out.ord_steps.len() as u64);
         let nmsgs = out.messages.len() as u64;
         let counts_intact = out.coh.mr == FileState::Exact && out.coh.ord == FileState::Exact;
         for (q, fast, truth) in &out.results {
@@ -1395,8 +1432,9 @@ fn main() {
                             _ => true,
                         };
                     let term = format!(
-                        "{{| c_log := {}; c_full := {}; c_query := {}; c_cmp_fast := {}; c_truth := {}; c_fast := {} |}}",
-                        log_term, full_term, coq_query_term(q, which, &out.abs, &out.messages), coq_bool(cmp), coq_list_n(&truth_enc[j]), coq_list_n(&fast_enc[j])
+                        "{{| c_log := {}; c_full := {}; c_query := {}; c_cmp_fast := {}; c_truth := {}; c_fast := {}; c_ord := {} |}}",
+                        log_term, full_term, coq_query_term(q, which, &out.abs, &out.messages), coq_bool(cmp), coq_list_n(&truth_enc[j]), coq_list_n(&fast_enc[j]),
+                        ord_term.take().unwrap_or_else(|| "[]".into()) // the history's index write steps ride on its first case
                     );
                     let id = w.push(term);
                     flagged_case_ids.push(id);
